@@ -8,6 +8,7 @@ CONSTANTS
  MaxFaults = 5
  MaxSeeks = 1
  Conc = 8
+ RelNR = TRUE
  FixLeak = TRUE
  PrioAsc = TRUE
  Rs = {1, 2, 3}
@@ -17,5 +18,5 @@ CONSTANTS
  Confs <- EqConfs
 INIT MCInit
 NEXT MCNext
-INVARIANTS Ok RetryBound TypeOK NoThrottleBlock
+INVARIANTS Ok RetryBound TypeOK NoThrottleBlock SlotsAccounted
 CHECK_DEADLOCK FALSE
